@@ -778,7 +778,8 @@ def run(chk: Check) -> None:
     rng = chk.rng
     chk.rule = ("real PPO.learn / IPPO.learn on rollouts with provenance-coded observations, actions, old log-probs "
                 "and values; T in 1..6, envs 1..4 (with and without an env dimension when 1), 1..3 agents in "
-                "homogeneous groups in several dict orders, episode boundaries at the first/last step, in next_done, "
+                "homogeneous groups in several dict orders (interleaved with other groups, listed in NON-lexicographic order "
+                "within a group, and eleven agents agent_0..agent_10 sharing one policy), episode boundaries at the first/last step, in next_done, "
                 "per column; gamma, lambda dyadic (exact diff) or 0.99/0.95-like with the real critic (toleranced); "
                 "distinct = distinct case dictionaries; non-trivial = an episode boundary inside the rollout/next_done "
                 "or more than one agent sharing a policy")
@@ -936,6 +937,22 @@ def selftest(chk: Check) -> None:
     chk.notes.append("self-test: IPPO transposed batching of states/actions detected")
     if not applied["gae"]:
         raise InfraError("C17 self-test: no GAE fault could be seeded (source of learn() not recognised)")
+
+    # the agents of a group are re-ordered (sorted ids) in states/actions only: invisible while the listing
+    # order is lexicographic, caught by the groups listed in another order / with eleven agents
+    def sorted_cat(experiences, space):
+        return orig_cat({k: experiences[k] for k in sorted(experiences)}, space)
+    order_probes = [gen_case(rng, "IPPO", 2, 2, UNSORTED_ID_SETS[0], exact=True),
+                    gen_case(rng, "IPPO", 2, 1, ELEVEN, exact=True)]
+    ippo_mod.concatenate_experiences_into_batches = sorted_cat
+    try:
+        hits = [bool(o["problems"]) or o["diff"] is not None
+                for o in (one_case(chk, c, random.Random(5)) for c in order_probes)]
+    finally:
+        ippo_mod.concatenate_experiences_into_batches = orig_cat
+    if not all(hits):
+        raise InfraError(f"C17 self-test: agents sorted by id in states/actions only was not noticed ({hits})")
+    chk.notes.append("self-test: IPPO states/actions batched in sorted-id order (unsorted listing, eleven agents) detected")
 
     # D18: the critic's copy of the shared encoder is not brought up to date after learning
     orig_share = ppo_mod.PPO.share_encoder_parameters
